@@ -1101,8 +1101,7 @@ func (sc *specCtx) typeExprTerm(e Expr) (string, bool) {
 				k, ok1 := sc.typeExprTerm(x.Args[0])
 				v, ok2 := sc.typeExprTerm(x.Args[1])
 				if ok1 && ok2 {
-					sc.fc.declareFun(sc.st, "tid_map", "(Int Int) Int")
-					return app("tid_map", k, v), true
+					return sc.fc.mapTag(sc.st, k, v), true
 				}
 			}
 		}
